@@ -4,6 +4,7 @@ from .. import tlc, enum
 from ..backend import _as_int, dyadic
 from .c02 import ins_to_state, mask_of, _exc
 from .c03 import read_maps
+from .. import circ
 
 GATES1 = ("H", "S", "X", "Y", "Z")
 
@@ -34,6 +35,12 @@ def apply_step(be, S, e, n, seed):
         else:
             g = getattr(be.circuit, name)(*qs0)
         g.forward(S)
+    elif k == "circ":
+        items = [e["alpha"][i] for i in e["ids"]]
+        c, _orig, _gates = circ.build(be, items, n, e["cls"], e["mode"], "orig")
+        c.forward(S)
+        out.pop("alpha")
+        out["prog"] = [circ.wire_item(it) for it in items]
     elif k == "copy":
         orig = be.p_state(S)
         C = S.copy()
@@ -101,6 +108,13 @@ class C05(Prop):
             self.model("MC_Clifford", "MC_Clifford_maps_n%d.cfg" % n, name="maps_n%d" % n, print_file=pf,
                        expect_distinct=(24 if n == 1 else 11520))
             self.maps[n] = [m for m, _ in read_maps(pf)]
+        # small gate programs (N=3 alphabet of MC_Circuit) applied to states through circuits in every compile mode
+        pfc = "%s/programs.txt" % self.wd
+        self.model("MC_Circuit", "MC_Circuit_q.cfg", name="programs", print_file=pfc, timeout=3000)
+        self.alpha, self.progs = circ.read_programs(pfc)
+        r3 = self.model("MC_RotSim", "MC_RotSim_n3.cfg", name="rotsim_n3", workers=1, simulate="num=%d" % (30 if self.tier == "thorough" else 8),
+                        depth=9, seed=self.seed + 45, collect=True)
+        self.tabs3 = [e[3] for e in r3.printed if e[0] == "S" and e[1] % 3 == 0]
         self.walks = []
         nb = 120 if self.tier == "thorough" else 10
         for n in (2, 3, 4, 5):
@@ -156,6 +170,14 @@ class C05(Prop):
                     es.append({"kind": "set_r", "r": r2})
                 sid += 1
                 yield {"k": "steps", "rows": ins_to_state(m), "r": r, "es": es, "seed": self.seed * 104729 + sid * 4}
+        unit = [ids for ids, _ in self.progs if ids and all(i <= 14 for i in ids)]
+        for j, t in enumerate(self.tabs3):
+            es = []
+            for ids in rng.sample(unit, 60 if thorough else 25):
+                for mode in ("plain", "layers", "circuit"):
+                    es.append({"kind": "circ", "ids": ids, "mode": mode, "cls": ("CliffordCircuit", "Circuit")[(len(es) + j) % 2]})
+            sid += 1
+            yield {"k": "steps", "rows": ins_to_state(t), "r": j % 4, "es": es, "seed": self.seed * 104729 + sid * 4}
         for w in self.walks:
             sid += 1
             w["seed"] = self.seed * 104729 + sid * 1000
@@ -167,6 +189,8 @@ class C05(Prop):
             rec = {"op": "steps", "pre": {"rows": scn["rows"], "r": scn["r"]}, "entries": []}
             try:
                 for j, e in enumerate(scn["es"]):
+                    if e["kind"] == "circ":
+                        e = dict(e, alpha=self.alpha)
                     S = be.state(scn["rows"], scn["r"])
                     out, _ = apply_step(be, S, e, n, scn["seed"] + j)
                     if out["kind"] == "set_r":
